@@ -16,6 +16,7 @@ import (
 	"os"
 	"path/filepath"
 	"reflect"
+	"runtime"
 	"sort"
 	"strings"
 	"sync"
@@ -163,7 +164,12 @@ func (r *runner) run(h history, lastOnly bool) (key string, canMerge bool, trans
 		c.Note("morass.New failed: %v", err)
 		return "", false, 0, true
 	}
-	defer m.CleanUp()
+	defer func() {
+		m.CleanUp()
+		// morass.New sets a finalizer; millions of short-lived sorters would otherwise wait, with their
+		// run files and 4 KiB gob buffers, for the single finalizer goroutine
+		runtime.SetFinalizer(m, nil)
+	}()
 	m.AutoClear = h.Cfg.AutoClear
 	fail := func(class, f string, a ...interface{}) {
 		failed = true
@@ -335,12 +341,16 @@ func explore(c *enum.Ctx, cfg config, work string, shard int, big bool, minDepth
 	alpha := cycleAlphabet(cfg.Chunk, !big)
 	// BFS over boundary states; a state is represented by the shortest history reaching it
 	type node struct{ h history }
-	seen := map[string]history{}
+	// the visited set holds 128-bit digests of the keys (the keys themselves are reflective dumps of
+	// several hundred bytes; millions of them do not fit in memory)
+	type digest [2]uint64
+	dg := func(k string) digest { return digest{enum.Hash64(k), enum.Hash64("#" + k + "#")} }
+	seen := map[digest]struct{}{}
 	initKey, canMerge, _, _ := r.run(history{Cfg: cfg}, true)
 	if !canMerge {
 		c.NotExhaustive("a private field of morass.Morass used by the canonical key is missing; merging disabled, depth bounded to 2 cycles")
 	}
-	seen[initKey] = history{Cfg: cfg}
+	seen[dg(initKey)] = struct{}{}
 	frontier := []history{{Cfg: cfg}}
 	var states, trans, merged, execs int64 = 1, 0, 0, 0
 	depth := 0
@@ -371,11 +381,11 @@ func explore(c *enum.Ctx, cfg config, work string, shard int, big bool, minDepth
 				if !ok {
 					key = enum.J(nh)
 				}
-				if _, dup := seen[key]; dup && depth >= minDepth {
+				if _, dup := seen[dg(key)]; dup && depth >= minDepth {
 					merged++
 					continue
 				}
-				seen[key] = nh
+				seen[dg(key)] = struct{}{}
 				states++
 				next = append(next, nh)
 				if c.WantSample() && len(nh.Cycles) == 2 {
